@@ -95,6 +95,11 @@ class Report:
         if self.errors:
             cov["harness_error_samples"] = self.errors[:5]
         cov["known_findings_matched"] = {k: v["count"] for k, v in self.known_hits.items()}
+        try:
+            from . import prelude
+            cov["process_past"] = dict(prelude.INFO)
+        except Exception:  # noqa
+            pass
         ev = {
             "property_id": self.prop,
             "tier": self.tier,
